@@ -143,6 +143,11 @@ impl Log {
   }
 
   pub fn violate(&mut self, sig: String, op: &str, input: String, observed: String, expected: String) {
+    if observed.contains(crate::util::HARNESS_PANIC) {
+      // the workload itself slipped (see util::guard): not an observation of the library
+      self.harness_error(&format!("{} ({} on {})", observed, sig, input));
+      return;
+    }
     let v = Violation { sig, op: op.to_string(), input, observed, expected };
     match known_index(&v.sig) {
       Some(i) => {
